@@ -2,10 +2,17 @@ package phttp
 
 import (
 	"net/http/httptrace"
+	"sync"
 	"time"
 )
 
+// TraceTimings is filled in by the hooks of the ClientTrace that CreateHTTPTrace returns. net/http runs those hooks on
+// the transport's goroutines: WroteRequest, for one, is deferred on the connection's write loop and may run after the
+// response has been delivered to the caller of Client.Do, i.e. while the gun is already reading the timings.
+// Every access to the time stamps therefore takes mu.
 type TraceTimings struct {
+	mu sync.Mutex
+
 	GotConnTime          time.Time
 	GetConnTime          time.Time
 	DNSStartTime         time.Time
@@ -17,47 +24,63 @@ type TraceTimings struct {
 }
 
 func (t *TraceTimings) GetReceiveTime() time.Duration {
+	t.mu.Lock()
+	defer t.mu.Unlock()
 	return time.Since(t.GotFirstResponseByte)
 }
 
 func (t *TraceTimings) GetConnectTime() time.Duration {
+	t.mu.Lock()
+	defer t.mu.Unlock()
 	return t.GotConnTime.Sub(t.GetConnTime)
 }
 
 func (t *TraceTimings) GetSendTime() time.Duration {
+	t.mu.Lock()
+	defer t.mu.Unlock()
 	return t.WroteRequestTime.Sub(t.GotConnTime)
 }
 
 func (t *TraceTimings) GetLatency() time.Duration {
+	t.mu.Lock()
+	defer t.mu.Unlock()
 	return t.GotFirstResponseByte.Sub(t.WroteRequestTime)
+}
+
+// stamp records the current time in one of the fields of t.
+func (t *TraceTimings) stamp(field *time.Time) {
+	now := time.Now()
+	t.mu.Lock()
+	*field = now
+	t.mu.Unlock()
 }
 
 func CreateHTTPTrace() (*httptrace.ClientTrace, *TraceTimings) {
 	timings := &TraceTimings{}
 	tracer := &httptrace.ClientTrace{
 		GetConn: func(_ string) {
-			timings.GetConnTime = time.Now()
+			timings.stamp(&timings.GetConnTime)
 		},
 		GotConn: func(_ httptrace.GotConnInfo) {
-			timings.GotConnTime = time.Now()
+			timings.stamp(&timings.GotConnTime)
 		},
 		DNSStart: func(_ httptrace.DNSStartInfo) {
-			timings.DNSStartTime = time.Now()
+			timings.stamp(&timings.DNSStartTime)
 		},
 		DNSDone: func(info httptrace.DNSDoneInfo) {
-			timings.DNSDoneTime = time.Now()
+			timings.stamp(&timings.DNSDoneTime)
 		},
 		ConnectStart: func(network, addr string) {
-			timings.ConnectStartTime = time.Now()
+			timings.stamp(&timings.ConnectStartTime)
 		},
 		ConnectDone: func(network, addr string, err error) {
-			timings.ConnectDoneTime = time.Now()
+			timings.stamp(&timings.ConnectDoneTime)
 		},
 		WroteRequest: func(wr httptrace.WroteRequestInfo) {
-			timings.WroteRequestTime = time.Now()
+			timings.stamp(&timings.WroteRequestTime)
 		},
 		GotFirstResponseByte: func() {
-			timings.GotFirstResponseByte = time.Now()
+			timings.stamp(&timings.GotFirstResponseByte)
 		},
 	}
 
